@@ -1278,3 +1278,189 @@ func encodedTextIsNotEdited(c *core.Ctx) {
 	c.Pass("repo|encoder-output", "", sprintf("%d calls of standard encoders, %d of their results edited as text", enc, n))
 	c.Stat("standard_encoder_calls", enc)
 }
+
+// ---------------------------------------------------------------------------
+// readOnlyOperationsDoNotWriteTheContainer: printing, comparing, measuring
+// and iterating a list, map or set leaves the object as it was, also for the
+// length of the operation: the methods that implement these operations (and
+// the closures they defer) store into no field of the receiver.  A flag set
+// for the duration of Inspect ("am I being printed already?") is a write by a
+// read: two threads that print one list at the same time see "[...]" for a
+// list that does not contain itself, and race on the flag.
+var readOnlyContainerMethods = map[string]bool{
+	"Inspect": true, "String": true, "Equals": true, "Compare": true, "Interface": true, "MarshalJSON": true,
+	"Len": true, "Contains": true, "Iter": true, "IsTruthy": true, "Cost": true, "Type": true, "HashKey": true,
+	"Keys": true, "Values": true, "GetItem": true, "GetSlice": true, "Value": true, "SortedKeys": true,
+	"SortedItems": true, "Enumerate": true, "Count": true, "Index": true, "Copy": true, "Get": true, "GetWithObject": true,
+}
+
+func readOnlyOperationsDoNotWriteTheContainer(c *core.Ctx) {
+	p := c.P
+	op := p.Pkg("object")
+	n := 0
+	for _, tn := range []string{"List", "Map", "Set"} {
+		nt := core.LookupType(op, tn)
+		if nt == nil {
+			continue
+		}
+		for _, m := range core.Methods(nt) {
+			if !readOnlyContainerMethods[m.Name()] {
+				continue
+			}
+			fn := p.SSAFunc(m)
+			if fn == nil || fn.Blocks == nil {
+				continue
+			}
+			n++
+			bad := ""
+			var walk func(f *ssa.Function, d int)
+			walk = func(f *ssa.Function, d int) {
+				for _, b := range f.Blocks {
+					for _, in := range b.Instrs {
+						switch x := in.(type) {
+						case *ssa.Store:
+							if fa, ok := x.Addr.(*ssa.FieldAddr); ok && core.NamedOf(fa.X.Type()) == nt && !isFreshAlloc(fa.X) {
+								bad = "stores into " + tn + "." + fieldNameOf(nt, fa.Field) + " at " + p.Pos(x.Pos())
+							}
+						case *ssa.MakeClosure:
+							if cf, ok := x.Fn.(*ssa.Function); ok && d < 2 {
+								walk(cf, d+1)
+							}
+						}
+					}
+				}
+			}
+			walk(fn, 0)
+			c.Check(bad == "", "object."+tn+"."+m.Name()+"|does-not-write-the-container", p.Pos(fn.Pos()),
+				tn+"."+m.Name()+" reads the container"+ife(bad == "", " and stores into none of its fields", "; it "+bad+": an operation that only reads is a write for as long as it runs, and two threads that do it to one container at the same time get each other's state (string(shared) in two threads yields \"[...]\") and race"))
+		}
+	}
+	if n < 20 {
+		core.Undecidedf("only %d read-only methods of List, Map and Set found", n)
+	}
+	c.Stat("read_only_container_methods", n)
+}
+
+// ---------------------------------------------------------------------------
+// iteratorsThatAreNotBoundedByDataPollTheContext: a builtin that drains an
+// iterator (set(x), keys(x), list(x)) runs as long as the iterator yields.
+// An iterator over stored data ends when the data does; one that computes its
+// values (the integers up to n) is as long as the script says for free
+// (set(1000000000000)), and nothing in the draining loop looks at the
+// context.  The Next method of such an iterator does: it uses the context it
+// is handed, so that a cancelled evaluation stops producing.
+func iteratorsThatAreNotBoundedByDataPollTheContext(c *core.Ctx) {
+	p := c.P
+	op := p.Pkg("object")
+	iterI := core.MustType(op, "Iterator")
+	n := 0
+	for _, nm := range op.Types.Scope().Names() {
+		tn, ok := op.Types.Scope().Lookup(nm).(*types.TypeName)
+		if !ok {
+			continue
+		}
+		nt, ok := tn.Type().(*types.Named)
+		if !ok {
+			continue
+		}
+		if !types.Implements(types.NewPointer(nt), iterI.Underlying().(*types.Interface)) {
+			continue
+		}
+		stt, ok := nt.Underlying().(*types.Struct)
+		if !ok {
+			continue
+		}
+		// iterators that hold no slice, map, channel, string or other object to go through
+		holdsData := false
+		for i := 0; i < stt.NumFields(); i++ {
+			ft := stt.Field(i).Type()
+			switch u := ft.Underlying().(type) {
+			case *types.Slice, *types.Map, *types.Chan, *types.Interface:
+				_ = u
+				if stt.Field(i).Name() != "current" {
+					holdsData = true
+				}
+			case *types.Pointer:
+				if stt.Field(i).Name() != "current" && !stt.Field(i).Embedded() {
+					holdsData = true
+				}
+			case *types.Basic:
+				if u.Kind() == types.String {
+					holdsData = true
+				}
+			}
+		}
+		if holdsData {
+			continue
+		}
+		next := core.Method(nt, "Next")
+		if next == nil {
+			continue
+		}
+		fn := p.SSAFunc(next)
+		if fn == nil || fn.Blocks == nil || len(fn.Params) < 2 {
+			continue
+		}
+		n++
+		uses := fn.Params[1].Referrers() != nil && len(*fn.Params[1].Referrers()) > 0
+		c.Check(uses, "object."+nt.Obj().Name()+".Next|polls-the-context", p.Pos(fn.Pos()),
+			nt.Obj().Name()+" goes through no stored data: how long it yields is a number the script chose"+ife(uses, "; its Next looks at the context", "; its Next ignores the context, so a builtin that drains it (set(1000000000000)) runs on after the evaluation was cancelled"))
+	}
+	if n == 0 {
+		core.Undecidedf("no iterator type without stored data found")
+	}
+	c.Stat("computed_iterators", n)
+}
+
+// ---------------------------------------------------------------------------
+// goValuesOfScriptObjectsAreNotSilentlyNil: some script objects have no Go
+// value (a function, a module): their Interface() is nil.  A converter that
+// hands Interface() to Go as the value of an argument or a field looks at the
+// result first: a nil for an object that is not nil is refused, not passed on
+// (a script function given to a parameter of type interface{} arrived as nil,
+// and nothing said so).
+func goValuesOfScriptObjectsAreNotSilentlyNil(c *core.Ctx) {
+	p := c.P
+	to, _ := converterMethods(p)
+	objI := core.MustType(p.Pkg("object"), "Object")
+	n := 0
+	for _, fn := range to {
+		for _, b := range fn.Blocks {
+			for _, in := range b.Instrs {
+				call, ok := in.(*ssa.Call)
+				if !ok || !call.Call.IsInvoke() || call.Call.Method.Name() != "Interface" || core.NamedOf(call.Call.Value.Type()) != objI {
+					continue
+				}
+				// returned as the converted value?
+				returned := false
+				for _, b2 := range fn.Blocks {
+					if r, ok := b2.Instrs[len(b2.Instrs)-1].(*ssa.Return); ok && len(r.Results) > 0 {
+						for _, o := range core.Origins(spilledResult(b2, r.Results[0])) {
+							if o == ssa.Value(call) {
+								returned = true
+							}
+						}
+					}
+				}
+				if !returned {
+					continue
+				}
+				n++
+				tested := false
+				if call.Referrers() != nil {
+					for _, r := range *call.Referrers() {
+						if bo, ok := r.(*ssa.BinOp); ok && (bo.Op == token.EQL || bo.Op == token.NEQ) && (isNilValue(bo.X) || isNilValue(bo.Y)) {
+							tested = true
+						}
+					}
+				}
+				c.Check(tested, core.SSAName(fn)+"|Interface-result-tested-for-nil", p.Pos(call.Pos()),
+					core.SSAName(fn)+" hands Go the Interface() of whatever script object it is given"+ife(tested, " after testing the result for nil", " without testing the result: an object that has no Go value (a function, a module) arrives in Go as nil, silently"))
+			}
+		}
+	}
+	if n == 0 {
+		core.Undecidedf("no converter hands out Object.Interface() as the converted value")
+	}
+	c.Stat("interface_handouts", n)
+}
